@@ -500,6 +500,7 @@ def run(fx, tier):
     authenticator_present_rule(fx, v, 'C19')
     first_byte_table_rule(fx, v, 'C19')
     handshake_first_byte_rule(fx, v, 'C19')
+    connack_flags_rule(fx, v, 'C19')
     from c04 import reconnect_discards_buffer_rule
     v.rule('R-DOM', 'bytes buffered from a lost connection are discarded before the next read; exact-count reads of the handshake are not replaced by raw partial reads')
     reconnect_discards_buffer_rule(fx, v, 'C19')
@@ -1043,3 +1044,48 @@ def handshake_first_byte_rule(fx, v, prop='C19'):
                 key=prop + ':R-TABLE:connect_op:first-byte', where=f.file)
     if n == 0 and not v.violations:
         raise AnalysisBroken('connect_op::operator()(on_fixed_header) not found')
+
+
+def connack_flags_rule(fx, v, prop='C19'):
+    """F13: byte 1 of the CONNACK variable header (Connect Acknowledge Flags): bits 7-1 are reserved and MUST be 0
+    [MQTT-3.2.2-1].  connect_op::on_connack is folded over the 256 values of that byte (the first decoded field): a value
+    other than 0/1 ends the attempt on every path before anything is stored in the session state; 0 and 1 are not rejected."""
+    from fold import fold, Unfoldable
+    n = 0
+    for f in fx.functions(cls='connect_op', name='on_connack'):
+        # which name holds the flags byte?  the first structured binding of the decoded CONNACK
+        name = None
+        for b, i, l, x in f.elements():
+            for m in Expr.walk(x):
+                if m.get('k') == 'ref' and m.get('dk') == 'bind' and m.get('bi') == 0:
+                    name = m.get('n')
+        if name is None:
+            raise AnalysisBroken('connect_op::on_connack: the decoded CONNACK is not taken apart by a structured binding')
+        # the decoder is a pure grammar (no post-processing that could reject the byte there)
+        for d in fx.functions(q='boost::mqtt5::decoders::decode_connack'):
+            if d.tu == f.tu and any(blk.term and blk.term.get('cls') in ('IfStmt', 'SwitchStmt', 'ConditionalOperator') for blk in d.blocks.values()):
+                raise AnalysisBroken('decode_connack branches after parsing: the flags byte may be rejected there (idiom not modelled)')
+        n += 1
+        v.saw(f)
+        bad = []
+        try:
+            for val in range(256):
+                outs = set()
+                for pth in fold(fx, f, {name: val}, effects=('do_shutdown', 'complete', 'session_present', 'async_auth')):
+                    if pth.get('noret'):
+                        continue
+                    outs.add(tuple(nme for nme, c, x, l in pth['effects'] if not (nme == 'session_present' and not x.get('args'))))
+                stored = any('session_present' in o for o in outs)
+                went_on = any(('complete' in o or 'async_auth' in o) for o in outs)
+                if val > 1 and (stored or went_on or not all(o == ('do_shutdown',) for o in outs)):
+                    bad.append('0x%02x (reserved bits set) %s' % (val, 'is stored as the Session Present flag' if stored else 'is not rejected on every path'))
+                elif val <= 1 and not stored:
+                    bad.append('0x%02x (legal) never reaches the session state' % val)
+        except Unfoldable as ex:
+            raise AnalysisBroken('connect_op::on_connack flags table: %s' % ex)
+        v.check(not bad, 'R-TABLE', 'connect_op::on_connack%s Connect Acknowledge Flags table [%s] (256 rows)' % (f.inst()[:25], f.tu),
+                'only 0x00 and 0x01 are stored as Session Present; every other value ends the attempt (do_shutdown) on every path'
+                if not bad else '; '.join(bad[:3]) + (' … (%d rows)' % len(bad) if len(bad) > 3 else ''),
+                key=prop + ':R-TABLE:connect_op:connack-flags', where=f.file)
+    if n == 0 and not v.violations:
+        raise AnalysisBroken('connect_op::on_connack not found')
